@@ -370,6 +370,31 @@ static void two_attempt_history(run_state& rs, session& s, verif::prng& r, unsig
     if (s.completed()) after_completion(s, r);
 }
 
+// bonding: a pairing completes and is bonded (Bluetoe keeps LESC LTKs in the bond data base under EDIV = 0 / Rand = 0); then, on the
+// same or on a following connection of the same peer, a second pairing completes with a different key (legacy after LESC on the
+// combined manager, LESC after LESC with fresh keys / nonces): find_key(0,0) has to offer the key of the latest pairing.
+static void rebond_history(run_state& rs, session& s, verif::prng& r, unsigned long long index)
+{
+    sm_port& port = *rs.port;
+    const int peer = static_cast<int>(r.below(session::PEERS));
+    s.connect(peer);
+    context c = random_context(port, r, true);
+    c.authreq |= 0x09; c.policy = U_SYNC_YES; c.lesc_choice = IP_JW;
+    s.new_context(c);
+    mon("C33").cls("second_pairing_of_a_bonded_peer");
+    if (!run_valid(s, r, MS_DONE, false) || !s.completed()) return;
+    after_completion(s, r);
+    // second pairing
+    if (index & 1) s.connect(peer);                                                    // following connection of the same peer
+    else { s.send(s.build(K_REQ_LESC, C_VALID), K_REQ_LESC, C_VALID); s.poll(); }     // same connection: Bluetoe wants an idle state first
+    if (s.state() != MS_IDLE) return;
+    context c2 = random_context(port, r, true);
+    c2.policy = U_SYNC_YES; c2.lesc_choice = IP_JW;
+    if (port.variant == V_COMBINED && (index & 2)) c2.authreq &= ~0x08; else c2.authreq |= 0x08;    // legacy after LESC / LESC after LESC
+    s.new_context(c2);
+    if (run_valid(s, r, MS_DONE, false) && s.completed()) after_completion(s, r);
+}
+
 static void random_history(run_state& rs, session& s, verif::prng& r)
 {
     sm_port& port = *rs.port;
@@ -421,6 +446,7 @@ static void run_histories(run_state& rs, unsigned long long ops)
         s.set_local_address(r.chance(1, 2));
         if (type < 2) systematic_history(rs, s, r, si);
         else if (type == 3 && nc_possible) { if (ni % 4 == 3) two_attempt_history(rs, s, r, ni); else nc_history(rs, s, r, ni); }
+        else if (type == 2 && port.bond && port.variant != V_LEGACY && (i / 4) % 4 == 1) rebond_history(rs, s, r, i / 16);
         else random_history(rs, s, r);
         if (samples < 3 && s.completed()) {
             ++samples;
